@@ -453,6 +453,7 @@ class Verifier:
         (plain names) and the initial ones (old_<name>)."""
         first, last = c.block[:2]
         nth = c.block[2] if len(c.block) > 2 else None   # end at the nth statement assigning `last`
+        fnth = c.block[3] if len(c.block) > 3 else 0      # start at the fnth statement assigning `first`
 
         def assigns(stmt, name):
             tg = []
@@ -489,7 +490,7 @@ class Verifier:
                 idx = [i for i, s_ in enumerate(lst) if isinstance(s_, ast.stmt)
                        and assigns(s_, first)]
                 if idx:
-                    lo = idx[0]
+                    lo = idx[min(fnth, len(idx) - 1)]
                     his = [i for i in range(lo, len(lst))
                            if any(assigns(x, last) for x in ast.walk(lst[i])
                                   if isinstance(x, ast.stmt))]
